@@ -1030,7 +1030,7 @@ pub fn root_names_for(choice: usize, k: usize) -> Option<Vec<String>> {
     }
 }
 
-const DD_NAMES: [&str; 6] = ["", "dd", "my diagram", "line\nbreak\ttab", " lead trail ", "ünï"];
+const DD_NAMES: [&str; 8] = ["", "dd", "my diagram", "line\nbreak\ttab", " lead trail ", "ünï", "del\u{7f}dd\u{1f}", "\u{0}nul\u{1b}esc"];
 
 fn all_cfgs(k_roots: usize, salt: usize) -> Vec<Cfg> {
     let mut v = Vec::new();
@@ -1080,6 +1080,26 @@ fn world3<D: DKind>(ctx: &mut Ctx, order: &[u32], naming: &'static str, tag: u64
                 continue;
             }
             roundtrip::<D>(ctx, &w, &roots, cfg, (ci + si) % 3 == 0);
+        }
+        // root-name byte sweep: every ASCII control character (0x00..=0x1f and DEL), the space and the
+        // neighbouring printable / non-ASCII bytes inside a root name, strict and non-strict (C15-r5m1:
+        // the sanitiser of root names is a separate code site from the one of variable names)
+        if (si == 1 || si == 2) && order[0] == 0 {
+            let sweep = (0u32..=0x21).chain([0x5f, 0x7e, 0x7f, 0x80, 0x85, 0xa0, 0xff]);
+            for (bi, c) in sweep.enumerate() {
+                let ch = char::from_u32(c).unwrap();
+                for strict in [false, true] {
+                    let cfg = Cfg {
+                        ascii: (bi + si) % 2 == 0,
+                        v3: (bi / 2 + si) % 2 == 0,
+                        strict,
+                        dd: DD_NAMES[bi % DD_NAMES.len()].to_string(),
+                        root_names: Some((0..roots.len()).map(|j| if j == 0 { format!("f{ch}g") } else { format!("{ch}r{j}{ch}") }).collect()),
+                    };
+                    roundtrip::<D>(ctx, &w, &roots, &cfg, false);
+                    ctx.count("root_name_byte_sweep_exports", 1);
+                }
+            }
         }
     }
     ctx.sample(|| format!("{} n=3 order {order:?} naming {naming} names {names:?}: {} root sets x 24 export configurations", D::NAME, sets.len()));
